@@ -50,6 +50,7 @@ FAMILIES = [
     ("ladder3", lambda: fam_ladder(3)), ("bubble_chain3", lambda: fam_bubble_chain(3)),
     ("triangle_chain3", lambda: fam_triangle_chain(3)), ("banana5", lambda: fam_banana(5)),
     ("dumbbell", fam_dumbbell), ("lollipop", fam_lollipop), ("tailed_triangle", fam_tailed_triangle),
+    ("banana6", lambda: fam_banana(6)),
 ]
 
 
@@ -95,11 +96,14 @@ def make_graph(r, pairs, D, massive=None, externals=None, wkind=None):
         massive = [mode == 1 or (mode >= 2 and r.chance(0.5)) for _ in range(E)]
     vs = sorted({v for p in pairs for v in p})
     if externals is None:
-        k = r.below(4)
+        k = r.below(6)
         if k == 0:
             externals = list(vs)
         elif k == 1:
             externals = []
+        elif k >= 4:
+            a, b = r.choice(pairs)         # a two-point function: the endpoints of one edge (or a single vertex for a self-loop)
+            externals = [a] if a == b or r.chance(0.25) else [a, b]
         else:
             externals = [v for v in vs if r.chance(0.5)]
         if r.chance(0.08):
@@ -218,6 +222,8 @@ def gen_accepted(r, emax=6, tries=60, connected=False, fams=None, want_dod_pos=T
         if connected and len(uf_components([(a, b) for a, b in pairs], list(range(len(pairs))))[0]) != 1:
             continue
         pairs = relabel(r, pairs)
+        if r.chance(0.5):
+            r.shuffle(pairs)               # the edge numbering is arbitrary: the lowest-numbered edge need not touch an external vertex
         D = r.choice(Ds)
         g = make_graph(r, pairs, D, externals=(sorted({v for p in pairs for v in p}) if ext_all else None))
         for _ in range(12):
